@@ -129,6 +129,14 @@ theorem guard_rejects_iff (i : Impl) (hi : i ∈ C16Sem.impls) (g : BExpr) (hg :
     rw [guardCmp_sound C16Sem.helpers env auth g c hc]
     cases relK env.cfg c env.gov auth <;> simp
 
+/-- the shape table and the semantic table are two readings of the same source: every handler of the shape table has an
+implementation (same position, same method, same message) in the semantic table, and the two classifications agree -/
+theorem shape_and_semantic_tables_agree :
+    (handlers.zip C16Sem.impls).all (fun hi =>
+      hi.2.method == hi.1.method && hi.2.msg == hi.1.msg &&
+        (shapeOk handlers hi.1.shape == (protectedAt prog 4 hi.2.recv hi.2.method).isSome)) = true ∧
+    C16Sem.impls.length = handlers.length := by decide
+
 /-- what the three comparison kinds mean -/
 theorem relK_strict_iff (cfg : AddrCfg) (a b : Str) : relK cfg .strict a b = true ↔ a = b := by simp [relK]
 
@@ -230,6 +238,23 @@ theorem routed_only_governance_string {σ : Type} (r : Registration) (hr : r ∈
         | some _ => simp [hh] at hdec
       simp [hvb, this]
 
+/-- the same in terms of the ACCOUNT: whenever a routed privileged message is not rejected-with-the-state-unchanged, its
+authority decodes (`sdk.AccAddressFromBech32`, modelled in full: character range, single case, separator, charset,
+checksum, 5→8 bit regrouping, prefix, address length) to the very address bytes the keeper's authority string decodes to -/
+theorem routed_accepts_only_governance_account {σ : Type} (r : Registration) (hr : r ∈ C16Sem.registrations)
+    (sv : Service) (hsv : sv ∈ C16Sem.services) (hpkg : sv.pkg = r.service)
+    (mm : String × String) (hmm : mm ∈ sv.methods) (hmsg : mm.2 ≠ "")
+    (hkind : protectedAt prog 4 r.impl mm.1 ≠ some .addr)
+    (env : Env) (hgov : lowerAsciiStr env.gov = true) (auth : Str) (W : World σ) (payloadOk : Bool) (s : σ)
+    (hacc : routed prog C16Sem.msgInfos env auth W payloadOk r.impl mm.1 mm.2 s ≠ (.err, s)) :
+    accAddress env.cfg auth = accAddress env.cfg env.gov := by
+  by_cases h1 : auth = env.gov
+  · rw [h1]
+  · by_cases h2 : auth = env.gov.map upperC
+    · rw [h2]; exact accAddress_upper env.cfg env.gov hgov
+    · exact absurd (routed_only_governance_string r hr sv hsv hpkg mm hmm hmsg hkind env hgov auth W payloadOk s h1
+        (Or.inr h2)) hacc
+
 /-- the guard is not vacuous: with the keeper's authority itself a guarded body runs its rest -/
 theorem gov_authority_passes_guard {σ : Type} (i : Impl) (hi : i ∈ C16Sem.impls) (g : BExpr) (rest : List Stmt)
     (hb : i.body = .rejectIf g :: rest) (env : Env) (W : World σ) (call : String → String → σ → Res × σ) (s : σ) :
@@ -267,6 +292,14 @@ theorem update_store_prog_refines_cas (known : List String) (es : List Entry) (S
     ⟨_, rfl⟩
   obtain ⟨v, hv⟩ := hp
   rw [hv, runProg_single, runLoop_canonical]
+
+/-- the handler the loop belongs to starts with the strict authority guard (so `updateStoreHandler`'s `auth ≠ gov` IS the
+regenerated guard) and then runs the loop as its first piece of work -/
+theorem update_store_guard_strict :
+    C16Sem.impls.any (fun i => i.msg == "x/gov/types.MsgUpdateStore" &&
+      (match firstGuard i.body with | some g => guardCmp C16Sem.helpers g == some .strict | none => false) &&
+      (match i.body with | .rejectIf _ :: .nop _ :: .work _ _ :: _ => true | .rejectIf _ :: .work _ _ :: _ => true | _ => false)) = true := by
+  decide
 
 /-- it succeeds iff at EVERY position the store space is known and the stated old value equals the value current there,
 i.e. after the writes of all earlier entries (same key twice included) -/
